@@ -2,8 +2,13 @@
 
    [interp (S f)] unfolds one level by the equations below (all by computation);
    the [*_step] functions are not recursive, so [cbv] with a delta whitelist
-   evaluates exactly one layer and never runs ahead under a binder.  The
-   tactics never look at which function is being executed. *)
+   evaluates exactly one layer and never runs ahead under a binder.  [sx_step]
+   always works on the innermost scrutinee of the goal's last argument (the
+   point where evaluation is stuck), so only live paths are explored.  The
+   tactics never look at which function is being executed.
+
+   NB: proof files must say [Local Opaque interp.] -- otherwise conversion may
+   compare two [interp n] by unfolding, which is exponential in n. *)
 From HyV Require Import State.EvalRestoreSem.
 
 Section Eqs.
@@ -15,9 +20,9 @@ Lemma eq_evals f en es s : r_evals (I (S f)) en es s = evals_step (I f) en es s.
 Lemma eq_evalkw f en kw s : r_evalkw (I (S f)) en kw s = evalkw_step (I f) en kw s. Proof. reflexivity. Qed.
 Lemma eq_ocall f g a kw s : r_ocall (I (S f)) g a kw s = ocall_step Orc (I f) g a kw s. Proof. reflexivity. Qed.
 Lemma eq_run_beh f b n : r_run_beh (I (S f)) b n = run_beh_step P (I f) b n. Proof. reflexivity. Qed.
-Lemma eq_call_value f v a kw s : r_call_value (I (S f)) v a kw s = call_value_step P (I f) v a kw s. Proof. reflexivity. Qed.
-Lemma eq_call_method f v m a kw s : r_call_method (I (S f)) v m a kw s = call_method_step P (I f) v m a kw s. Proof. reflexivity. Qed.
-Lemma eq_call_fun f n fd a kw s : r_call_fun (I (S f)) n fd a kw s = call_fun_step (I f) n fd a kw s. Proof. reflexivity. Qed.
+Lemma eq_call_value f c v a kw s : r_call_value (I (S f)) c v a kw s = call_value_step P (I f) c v a kw s. Proof. reflexivity. Qed.
+Lemma eq_call_method f c v m a kw s : r_call_method (I (S f)) c v m a kw s = call_method_step P (I f) c v m a kw s. Proof. reflexivity. Qed.
+Lemma eq_call_fun f c n fd a kw s : r_call_fun (I (S f)) c n fd a kw s = call_fun_step (I f) c n fd a kw s. Proof. reflexivity. Qed.
 Lemma eq_assign f en t v s : r_assign (I (S f)) en t v s = assign_step (I f) en t v s. Proof. reflexivity. Qed.
 Lemma eq_assigns f en ts vs s : r_assigns (I (S f)) en ts vs s = assigns_step (I f) en ts vs s. Proof. reflexivity. Qed.
 Lemma eq_exec f en c s : r_exec (I (S f)) en c s = exec_step (I f) en c s. Proof. reflexivity. Qed.
@@ -26,21 +31,59 @@ Lemma eq_exec_for f en t vs b s : r_exec_for (I (S f)) en t vs b s = exec_for_st
 Lemma eq_exec_block f en cs s : r_exec_block (I (S f)) en cs s = exec_block_step (I f) en cs s. Proof. reflexivity. Qed.
 End Eqs.
 
-(* NB: proof files must say [Local Opaque interp.] -- otherwise conversion may try to
-   compare two [interp n] by unfolding, which is exponential in n. *)
-Ltac sx_unfold :=
-  first [ rewrite eq_exec_block | rewrite eq_exec | rewrite eq_eval | rewrite eq_evals | rewrite eq_evalkw
-        | rewrite eq_assign | rewrite eq_assigns | rewrite eq_call_value | rewrite eq_call_method
-        | rewrite eq_call_fun | rewrite eq_ocall | rewrite eq_run_beh | rewrite eq_handle | rewrite eq_exec_for ].
-
 Ltac sx_red :=
   cbv beta iota zeta delta
     [eval_step evals_step evalkw_step ocall_step run_beh_step call_value_step call_method_step call_fun_step
      assign_step assigns_step exec_step handle_step exec_for_step exec_block_step
-     aget aset const_val bind_params option_map String.eqb Ascii.eqb Bool.eqb strmem existsb
+     aget aset const_val bind_params bind_params_aux fextra forallb option_map String.eqb Ascii.eqb Bool.eqb strmem existsb
      mro_of exc_matches find_method drop_until before_dot append
      fst snd List.length Nat.eqb glob_get pvars pfuns pmro fparams fbody
      truthy val_is val_eqb get_attr subscript contains builtin_method iter_items exn module_dict
      negb andb orb hset].
 
-Ltac sx := repeat (sx_unfold; sx_red).
+
+Lemma dget_nil k : dget k [] = None. Proof. reflexivity. Qed.
+
+Ltac sx_head t :=
+  lazymatch t with
+  | match ?x with _ => _ end => sx_head x
+  | _ => t
+  end.
+
+(* One step at the stuck point of a goal of the form [Q t].
+   [on_oracle O n g a kw h] is called when evaluation waits for the answer of an opaque callee;
+   [on_other hd] when it waits for anything else (it must make progress or fail). *)
+Ltac sx_step on_oracle on_other :=
+  lazymatch goal with
+  | |- _ ?T =>
+    let hd := sx_head T in
+    lazymatch hd with
+    | r_eval (interp ?P ?O (S ?f)) ?en ?e ?s => rewrite (eq_eval P O f en e s)
+    | r_evals (interp ?P ?O (S ?f)) ?en ?e ?s => rewrite (eq_evals P O f en e s)
+    | r_evalkw (interp ?P ?O (S ?f)) ?en ?e ?s => rewrite (eq_evalkw P O f en e s)
+    | r_ocall (interp ?P ?O (S ?f)) ?g ?a ?kw ?s => rewrite (eq_ocall P O f g a kw s)
+    | r_run_beh (interp ?P ?O (S ?f)) ?b ?n => rewrite (eq_run_beh P O f b n)
+    | r_call_value (interp ?P ?O (S ?f)) ?c ?v ?a ?kw ?s => rewrite (eq_call_value P O f c v a kw s)
+    | r_call_method (interp ?P ?O (S ?f)) ?c ?v ?m ?a ?kw ?s => rewrite (eq_call_method P O f c v m a kw s)
+    | r_call_fun (interp ?P ?O (S ?f)) ?c ?n ?fd ?a ?kw ?s => rewrite (eq_call_fun P O f c n fd a kw s)
+    | r_assign (interp ?P ?O (S ?f)) ?en ?t ?v ?s => rewrite (eq_assign P O f en t v s)
+    | r_assigns (interp ?P ?O (S ?f)) ?en ?t ?v ?s => rewrite (eq_assigns P O f en t v s)
+    | r_exec (interp ?P ?O (S ?f)) ?en ?c ?s => rewrite (eq_exec P O f en c s)
+    | r_handle (interp ?P ?O (S ?f)) ?en ?x ?hs ?s => rewrite (eq_handle P O f en x hs s)
+    | r_exec_for (interp ?P ?O (S ?f)) ?en ?t ?vs ?b ?s => rewrite (eq_exec_for P O f en t vs b s)
+    | r_exec_block (interp ?P ?O (S ?f)) ?en ?cs ?s => rewrite (eq_exec_block P O f en cs s)
+    | hget ?h ?d =>
+        lazymatch goal with
+        | H : hget h d = _ |- _ => rewrite H
+        | _ => on_other hd
+        end
+    | dget ?k [] => rewrite (dget_nil k)
+    | dget ?k ?kvs => destruct (dget k kvs) eqn:?
+    | ?O ?n ?g ?a ?kw ?h =>
+        lazymatch type of O with
+        | oracle => on_oracle O n g a kw h
+        | _ => on_other hd
+        end
+    | _ => first [ is_var hd; destruct hd | on_other hd ]
+    end
+  end.
